@@ -136,7 +136,9 @@ def check(run, prog, tier):
                 out |= more
             return out
         hs = holders(depth)
-        hit = {b.id for b, i, n in do.nodes() if pred(n) or (n.get("k") == "Call" and n.get("fn") in hs and n.get("fn") != do.name)}
+        # a helper does the step for the object being destructed only when that object itself is handed to it
+        hit = {b.id for b, i, n in do.nodes() if pred(n) or (n.get("k") == "Call" and n.get("fn") in hs and n.get("fn") != do.name
+                                                              and any(strip(a).get("k") == "Ref" and strip(a).get("n") == obname for a in n.get("args", [])))}
         out = []
         for bid in sorted(hit, reverse=True):
             # enclosing loops that do not contain the final store; a block that leaves a loop (found it: unlink, break) belongs to it
@@ -440,3 +442,8 @@ def check(run, prog, tier):
     # ---- C08-i list walks do not follow links out of objects a callback may have unlinked
     run.rule("C08-i", "a loop that follows next_all / next_inv reads the link of its current object only while no LPC-running call has intervened since that object was last known alive and in place (O_DESTRUCTED test, environment test or fresh assignment); otherwise the successor must have been saved before the call", 3)
     c08h.check_walks(run, prog, cg)
+
+    # ---- C08-j the heart-beat table does not lead to a destructed object
+    run.rule("C08-j", "heart beats are called through the backend's table without a destructed test of their own: destruct_object() takes the object out of heart_beats[] (C08-b step:heart-beat), and a removal during a running round keeps the round inside the live part of the table - set_heart_beat() lowers the round length for every removed entry that lies inside the round and the cursor for every entry at or before it; otherwise the round walks onto the stale copy that memmove() leaves behind the last entry and calls heart_beat() in the object that was just destructed", 2)
+    import rules.C11 as c11
+    c11.hb_cursor_rule(run, prog, "C08-j")
